@@ -17,13 +17,25 @@ use crate::{
 pub struct Case {
     pub name: String,
     pub args: Vec<String>,
-    /// how each argument is handed over: 0 &str, 1 String, 2 Cow::Borrowed, 3 Cow::Owned, 4 &String
+    /// how each argument is handed over: how % 5 = 0 &str, 1 String, 2 Cow::Borrowed, 3 Cow::Owned, 4 &String;
+    /// how / 5 = offset of a borrowed argument inside a larger allocation (see `add`)
     pub how: Vec<u8>,
     /// None: Connection::send; Some((before, after)): member of a command list sent by send_list
     pub list: Option<(u8, u8)>,
 }
 
 fn add(cmd: &mut Command, arg: &str, how: u8) -> bool {
+    // how / 5 = 1..=8: the borrowed forms hand over a sub-slice of a larger string that starts that
+    // many bytes into the allocation (an argument cut out of a longer line: neither its start nor
+    // its end sits where an allocator would put them)
+    let k = (how / 5) as usize % 9;
+    if k > 0 && matches!(how % 5, 0 | 2) {
+        let mut padded = " \"p'\\pqrs"[..k].to_string();
+        padded.push_str(arg);
+        padded.push_str(&" q\t"[..k % 4]);
+        let sub = &padded[k..k + arg.len()];
+        return if how % 5 == 0 { cmd.add_argument(sub).is_ok() } else { cmd.add_argument(Cow::Borrowed(sub)).is_ok() };
+    }
     match how % 5 {
         0 => cmd.add_argument(arg).is_ok(),
         1 => cmd.add_argument(arg.to_owned()).is_ok(),
@@ -221,7 +233,7 @@ fn strategy(tier: Tier) -> BoxedStrategy<Case> {
     let max_len = tier.pick(120, 300);
     (
         valid_name(),
-        prop::collection::vec((arg_string_maybe_rejected(max_len), 0..5u8), 0..=8usize),
+        prop::collection::vec((arg_string_maybe_rejected(max_len), prop_oneof![2 => 0..5u8, 1 => 5..45u8]), 0..=8usize),
         prop_oneof![
             3 => Just(None),
             2 => (0..3u8, 0..3u8).prop_map(Some),
@@ -270,6 +282,147 @@ fn exhaustive(tier: Tier) -> Box<dyn Iterator<Item = Case>> {
     }))
 }
 
+// ---- commands built in unusual (but legitimate) execution contexts ---------------------------------
+
+#[derive(Debug, Clone, Serialize, Deserialize)]
+pub struct ContextCase {
+    pub args: Vec<String>,
+    /// 0: inside the destructor of an application thread-local that was first used BEFORE the thread
+    /// ever touched the library; 1: the same, first used AFTER; 2: re-entrantly, from inside the
+    /// `render` of a user-defined argument of another command; 3: on a thread that is unwinding; 4: after
+    /// a user-defined renderer panicked on this thread and the panic was contained
+    pub context: u8,
+}
+
+/// what `build_all` produced: per argument whether it was accepted, and the finished command
+type Built = (Vec<bool>, Command);
+
+fn build_all(args: &[String]) -> Built {
+    let mut c = Command::new("cmd");
+    let oks = args.iter().map(|a| c.add_argument(a.as_str()).is_ok()).collect();
+    (oks, c)
+}
+
+struct AtExit(Vec<String>, std::sync::mpsc::Sender<Built>);
+impl Drop for AtExit {
+    fn drop(&mut self) {
+        let _ = self.1.send(build_all(&self.0));
+    }
+}
+thread_local! {
+    static AT_EXIT: std::cell::RefCell<Option<AtExit>> = const { std::cell::RefCell::new(None) };
+}
+
+struct Reentrant<'a>(&'a [String], std::cell::RefCell<Option<Built>>);
+impl mpd_protocol::command::Argument for Reentrant<'_> {
+    fn render(&self, buf: &mut bytes::BytesMut) {
+        *self.1.borrow_mut() = Some(build_all(self.0));
+        buf.extend_from_slice(b"outer");
+    }
+}
+
+pub fn check_context(case: &ContextCase) -> CaseResult {
+    let mut r = CaseResult::new();
+    let (oks0, cmd0) = build_all(&case.args);
+    let bytes0 = sent_bytes(cmd0);
+    let (tx, rx) = std::sync::mpsc::channel::<Built>();
+    let args = case.args.clone();
+    let built: Option<Built> = match case.context % 5 {
+        ctx @ (0 | 1) => {
+            let _ = std::thread::spawn(move || {
+                if ctx == 1 {
+                    let _ = build_all(&["warm up".to_string(), "x\ny".to_string()]);
+                }
+                AT_EXIT.with(|c| *c.borrow_mut() = Some(AtExit(args, tx)));
+                if ctx == 0 {
+                    let _ = build_all(&["warm up".to_string(), "x\ny".to_string()]);
+                }
+            })
+            .join();
+            rx.recv().ok()
+        }
+        2 => {
+            let probe = Reentrant(&args, std::cell::RefCell::new(None));
+            let mut outer = Command::new("outer");
+            let _ = outer.add_argument(&probe);
+            drop(tx);
+            probe.1.into_inner()
+        }
+        4 => {
+            // a user-defined renderer wrote some bytes (a line feed among them) and then panicked; the
+            // application contained the panic (catch_unwind, a task that died) and goes on building
+            // commands on the same thread
+            struct Bomb;
+            impl mpd_protocol::command::Argument for Bomb {
+                fn render(&self, buf: &mut bytes::BytesMut) {
+                    buf.extend_from_slice(b"x\nkill \"");
+                    std::panic::resume_unwind(Box::new("harness: renderer gives up"));
+                }
+            }
+            let _ = crate::core::catch(|| {
+                let mut c = Command::new("doomed");
+                let _ = c.add_argument("fine");
+                let _ = c.add_argument(Bomb);
+            });
+            drop(tx);
+            Some(build_all(&args))
+        }
+        _ => {
+            struct OnUnwind(Vec<String>, std::sync::mpsc::Sender<Built>);
+            impl Drop for OnUnwind {
+                fn drop(&mut self) {
+                    let _ = self.1.send(build_all(&self.0));
+                }
+            }
+            let _ = crate::core::catch(move || {
+                let _guard = OnUnwind(args, tx);
+                std::panic::resume_unwind(Box::new("harness: unwinding on purpose"));
+            });
+            rx.recv().ok()
+        }
+    };
+    r.class(["in_tls_destructor_app_first", "in_tls_destructor_library_first", "reentrant_from_render", "while_unwinding", "after_contained_renderer_panic"][case.context as usize % 5]);
+    let Some((oks1, cmd1)) = built else {
+        r.fail("harness: the command built in the unusual context was not handed back");
+        return r;
+    };
+    let rejected = case.args.iter().any(|a| a.contains('\n') || a.contains('\0'));
+    r.class_if(rejected, "with_lf_or_nul_argument");
+    if rejected || case.args.iter().any(|a| a.is_empty() || a.bytes().any(|b| b <= 0x20 || b"\"'\\".contains(&b))) {
+        r.nontrivial();
+    }
+    for (a, ok) in case.args.iter().zip(&oks1) {
+        if *ok && (a.contains('\n') || a.contains('\0')) {
+            r.fail(format!("argument {a:?} (line feed / NUL) is accepted when the command is built {}", context_name(case.context)));
+            return r;
+        }
+    }
+    let bytes1 = sent_bytes(cmd1);
+    if oks1 != oks0 || bytes1 != bytes0 {
+        r.fail(format!(
+            "the same arguments give a different command when built {}: accepted {oks1:?} vs {oks0:?}, line {:?} vs {:?}",
+            context_name(case.context),
+            escape_bytes(&bytes1),
+            escape_bytes(&bytes0)
+        ));
+    }
+    r
+}
+
+fn context_name(c: u8) -> &'static str {
+    ["inside a thread-local destructor (application's thread-local first used before the library)", "inside a thread-local destructor (library used first)", "re-entrantly from the render() of another command's argument", "inside a destructor while the thread unwinds", "after a user-defined renderer panicked on this thread (panic contained)"][c as usize % 5]
+}
+
+pub fn context_part() -> Box<dyn crate::core::Part> {
+    Box::new(RandomPart {
+        name: "odd_contexts",
+        rule: "proptest: 1-4 argument strings (C06's generator incl. LF/NUL ones) added to a command (a) normally and (b) inside a thread-local destructor of an exiting thread (application's thread-local registered before / after the thread first used the library), re-entrantly from inside Argument::render of another command, inside a destructor during unwinding, or after a renderer's contained panic on the same thread; which arguments are accepted and the bytes sent must be identical, LF/NUL never accepted. non-trivial = an argument that needs quoting or is rejected",
+        cases: (6_000, 600_000),
+        strategy: Box::new(|_t: Tier| (prop::collection::vec(arg_string_maybe_rejected(60), 1..=4usize), 0..5u8).prop_map(|(args, context)| ContextCase { args, context }).boxed()),
+        check: Box::new(check_context),
+    })
+}
+
 pub fn property(_tier: Tier) -> Property {
     Property {
         id: "C06",
@@ -288,6 +441,7 @@ pub fn property(_tier: Tier) -> Property {
                 strategy: Box::new(strategy),
                 check: Box::new(check),
             }),
+            context_part(),
             crate::fuzzops::corpus_part("fuzz_corpus", "fz_cmd", "C06", crate::fuzzops::cmd_target),
         ],
         assumptions: vec![
